@@ -57,7 +57,7 @@ def int_expr(draw, size):
     if k <= 9:
         return f"({draw(int_expr(size - 1))})^{draw(st.sampled_from(['0', '1', '2', '3', '5', '10', '30', '64']))}"
     if k == 10:
-        return f"-({draw(int_expr(size - 1))})"
+        return f"{draw(st.sampled_from(['-', 'sgn', 'sgn']))}({draw(int_expr(size - 1))})"
     return draw(st.sampled_from(["0!", "5!", "20!", "25!", "3!"]))
 
 
@@ -86,9 +86,10 @@ def eval_case():
         G.template_text(),
         st.builds(lambda a, b: f"{a} = {b}", st.integers(1, 4).flatmap(int_expr), st.integers(1, 4).flatmap(int_expr)),
     )
+    pre = st.one_of(st.just([]), st.just([]), st.lists(st.tuples(st.integers(0, 10), st.integers(0, 30)), min_size=1, max_size=4).map(lambda ps: [list(p) for p in ps]))
     return st.builds(
-        lambda t, x, y, z, b, col: {"text": t, "ctx": {"x": x, "y": y, "z": z}, "build": b, "child_on_left": col},
-        texts, value_strategy, value_strategy, value_strategy, st.sampled_from(["parser", "parser", "ctor"]), st.booleans(),
+        lambda t, x, y, z, b, col, ab, pr: {"text": t, "ctx": {"x": x, "y": y, "z": z}, "build": b, "child_on_left": col, "abs": ab, "pre": pr if b == "parser" else []},
+        texts, value_strategy, value_strategy, value_strategy, st.sampled_from(["parser", "parser", "ctor"]), st.booleans(), st.booleans(), pre,
     )
 
 
@@ -104,8 +105,9 @@ def decode_ctx(c):
     return out
 
 
-def build_ctor(ast, col):
-    """Build a mathy tree from a reference AST through the public constructors."""
+def build_ctor(ast, col, abs_for_sgn=False):
+    """Build a mathy tree from a reference AST through the public constructors.
+    abs_for_sgn: build AbsExpression where the text says sgn (abs has no surface syntax)."""
     from mathy_core import expressions as M
 
     k = ast[0]
@@ -114,10 +116,10 @@ def build_ctor(ast, col):
     if k == "v":
         return M.VariableExpression(ast[1])
     if k in ("neg", "!", "sgn"):
-        cls = {"neg": M.NegateExpression, "!": M.FactorialExpression, "sgn": M.SgnExpression}[k]
-        return cls(build_ctor(ast[1], col), child_on_left=col)
+        cls = {"neg": M.NegateExpression, "!": M.FactorialExpression, "sgn": M.AbsExpression if abs_for_sgn else M.SgnExpression}[k]
+        return cls(build_ctor(ast[1], col, abs_for_sgn), child_on_left=col)
     cls = {"+": M.AddExpression, "-": M.SubtractExpression, "*": M.MultiplyExpression, "/": M.DivideExpression, "^": M.PowerExpression, "=": M.EqualExpression}[k]
-    return cls(build_ctor(ast[1], col), build_ctor(ast[2], col))
+    return cls(build_ctor(ast[1], col, abs_for_sgn), build_ctor(ast[2], col, abs_for_sgn))
 
 
 def plain(v):
@@ -246,9 +248,16 @@ def check_eval(ctx, case):
         return
     if case.get("build") == "ctor":
         try:
-            root = build_ctor(ast, bool(case.get("child_on_left")))
+            root = build_ctor(ast, bool(case.get("child_on_left")), bool(case.get("abs")))
         except Exception as e:
             return ctx.fail(("constructor-raised", type(e).__name__), case, {"error": repr(e)})
+    elif case.get("pre"):
+        # a tree reached by rewrites: evaluation must follow the CURRENT links, not anything cached at construction
+        root = E.build_tree(ctx, {"text": text, "pre": case["pre"]})
+        if root is None:
+            ctx.count("rejected-text")
+            return
+        ctx.count("rewritten-trees")
     else:
         root = E.parse(text)
         if root is None:
@@ -265,7 +274,7 @@ def check_eval(ctx, case):
         return
     used = A.variables(root)
     missing = [v for v in used if env.get(v) is None]
-    key = (text, repr(sorted(case["ctx"].items())), case.get("build"), case.get("child_on_left"))
+    key = (text, repr(sorted(case["ctx"].items())), case.get("build"), case.get("child_on_left"), case.get("abs"), repr(case.get("pre")))
     ctx.count("trees")
     nodes = A.preorder(root)
     nops = sum(1 for n in nodes if n.left is not None or n.right is not None)
@@ -283,7 +292,7 @@ def check_eval(ctx, case):
     ctx.sample({"text": text, "ctx": {k: (repr(v) if not isinstance(v, int) or abs(v) < 10**12 else f"{v:.3e}") for k, v in env.items() if k in used}, "build": case.get("build")})
     # whole-tree exact check for all-integer expressions
     int_only = all(is_intlike(env[v]) for v in used) and all(
-        A.kind(n) in ("AddExpression", "SubtractExpression", "MultiplyExpression", "NegateExpression", "PowerExpression", "FactorialExpression", "VariableExpression", "EqualExpression")
+        A.kind(n) in ("AddExpression", "SubtractExpression", "MultiplyExpression", "NegateExpression", "PowerExpression", "FactorialExpression", "VariableExpression", "EqualExpression", "AbsExpression", "SgnExpression")
         or (A.kind(n) == "ConstantExpression" and is_intlike(n.value))
         for n in nodes
     )
